@@ -102,6 +102,11 @@ def st_add_abs(ctx, s):
     s.add_absolute_message(off(0, 72, time=ctx.args["t"] + ctx.args["d"]))
 
 
+def st_add_abs_internal_marker(ctx, s):
+    # (the detokeniser adds bar / end markers this way)
+    s.add_absolute_message(Message(message_type=INTERNAL, channel=0, time=200 + ctx.args["t"]))
+
+
 def st_add_rel_end(ctx, s):
     s.add_relative_message(wait(ctx.args["d"]))
 
